@@ -28,6 +28,10 @@ def run(ctx):
     agg = run_family("C01F1", f1, NAMES, dev=dev, invariants=INVS, properties=PROPS, perms=perms,
                      timeout=600 if quick else 3000)
     ctx.add_family(agg)
+    f1n = F.c01_f1(ctx.tier, tag="ns")
+    agg = run_family("C01F1ns", f1n, NAMES, dev=dev, invariants=INVS, properties=PROPS, perms=perms[:2],
+                     timeout=600 if quick else 3000)
+    ctx.add_family(agg)
     f2 = F.c01_f2(ctx.tier, rnd)
     agg = run_family("C01F2", f2, NAMES, dev=dev, invariants=INVS, properties=PROPS, perms=perms[:2] if quick else perms[:4],
                      timeout=600 if quick else 3000)
